@@ -126,6 +126,13 @@ class SSETransport(Transport):
             # Wait for SSE connection to establish
             try:
                 await asyncio.wait_for(self._connected.wait(), timeout=self.timeout)
+                # The event is also set when the SSE task ends without the server
+                # ever announcing its message endpoint: that is not a connection
+                if not self._message_url:
+                    raise RuntimeError(
+                        f"SSE connection to {self.base_url} failed: "
+                        "no message endpoint announced"
+                    )
                 logger.info(f"SSE connection established to {self.base_url}")
                 return self
 
